@@ -17,4 +17,5 @@ func init() {
 	twin("C16", "view-through-local-constructor-phi", "har/har.go", "\tmv := messageview.New()\n\tif err := mv.SnapshotRequest(req); err != nil {", "\tvar mv *messageview.MessageView\n\tif logBody {\n\t\tmv = messageview.New()\n\t} else {\n\t\tmv = messageview.New()\n\t}\n\tif err := mv.SnapshotRequest(req); err != nil {")
 	mut("C16", "gzip-first-member-only", "messageview/messageview.go", "\t\treturn gr, nil\n", "\t\tgr.Multistream(false)\n\t\treturn gr, nil\n", "C16.R1", "Multistream")
 	mut("C16", "skip-body-option-case-sensitive", "har/har.go", "l.bodyLogging = func(res *http.Response) bool {\n\t\t\trct := res.Header.Get(\"Content-Type\")\n\n\t\t\tfor _, ct := range cts {\n\t\t\t\tif strings.HasPrefix(strings.ToLower(rct), strings.ToLower(ct)) {\n\t\t\t\t\treturn false", "l.bodyLogging = func(res *http.Response) bool {\n\t\t\trct := res.Header.Get(\"Content-Type\")\n\n\t\t\tfor _, ct := range cts {\n\t\t\t\tif strings.HasPrefix(rct, strings.ToLower(ct)) {\n\t\t\t\t\treturn false", "C16.R5", "case-insensitively")
+	mut("C16", "snapshot-folds-chunked", "messageview/messageview.go", "\t\tmv.chunked = req.TransferEncoding[tec-1] == \"chunked\"", "\t\tmv.chunked = strings.EqualFold(req.TransferEncoding[tec-1], \"chunked\")", "C16.R1", "test for the chunked coding in the same way")
 }
